@@ -23,11 +23,14 @@ inlining does not change what the rules see.
 """
 
 import ast
+import os
+import time
 
 from . import terms as T
 from .index import AnalysisError, dotted, walk_local
 
 MAX_STATES = 6000
+TIME_BUDGET = int(os.environ.get('VERIF_TIME_BUDGET', '75'))     # seconds per exploration
 
 EXC_TABLE = {
     # name -> ancestors (builtin hierarchy fragments the package can meet)
@@ -474,14 +477,16 @@ class Interp:
         self.in_summary = 0
         self.handling = []
         self.nstates = 0
+        self.t0 = time.time()
         self.calls_seen = 0
         self.inlined = set()
         self.frames = []
         self._suspend_cache = {}
 
     # ================================================================= API
-    def run(self, func, bindings=None, st=None, self_term=T.SELF):
+    def run(self, func, bindings=None, st=None, self_term=T.SELF, self_cls=None):
         """interpret `func` as the root; returns Out"""
+        self.root_cls = self_cls
         st = st or St()
         fid = T.mk(())
         fr = Frame(fid, func, 0, self_term if func.cls is not None and not func.is_static
@@ -623,6 +628,9 @@ class Interp:
             self.nstates += len(cur)
             if self.nstates > 400000:
                 raise AnalysisError("state explosion in %s" % fr.func.qualname)
+            if (self.nstates & 1023) < len(cur) and time.time() - self.t0 > TIME_BUDGET:
+                raise AnalysisError("state explosion in %s (exploration over its time budget of %d s)"
+                                    % (fr.func.qualname, TIME_BUDGET))
         out.nxt = cur
         if len(out.ret) > 1:
             seen = set()
@@ -716,7 +724,45 @@ class Interp:
     def x_ClassDef(self, s, st, fr):
         return self.x_Pass(s, st, fr)
 
+    def _all_any_loop(self, s):
+        """`return all(c(x) for x in S)` is `for x in S: if not c(x): return False` + `return True`
+        (and dually for any); built once per statement"""
+        cache = self.__dict__.setdefault('_aa_cache', {})
+        if id(s) in cache:
+            return cache[id(s)]
+        v = s.value
+        synth = None
+        if isinstance(v, ast.Call) and isinstance(v.func, ast.Name) and v.func.id in ('all', 'any') \
+                and len(v.args) == 1 and not v.keywords and isinstance(v.args[0], ast.GeneratorExp) \
+                and not any(g.is_async for g in v.args[0].generators):
+            ge = v.args[0]
+            is_all = v.func.id == 'all'
+            test = ast.UnaryOp(op=ast.Not(), operand=ge.elt) if is_all else ge.elt
+            body = [ast.If(test=test, body=[ast.Return(value=ast.Constant(value=not is_all))], orelse=[])]
+            for g in reversed(ge.generators):
+                if g.ifs:
+                    t2 = g.ifs[0] if len(g.ifs) == 1 else ast.BoolOp(op=ast.And(), values=list(g.ifs))
+                    body = [ast.If(test=t2, body=body, orelse=[])]
+                body = [ast.For(target=g.target, iter=g.iter, body=body, orelse=[])]
+            synth = [body[0], ast.Return(value=ast.Constant(value=is_all))]
+            for top in synth:
+                for n in ast.walk(top):
+                    if not hasattr(n, 'lineno'):
+                        ast.copy_location(n, s)
+                for n in ast.walk(top):
+                    for c in ast.iter_child_nodes(n):
+                        if isinstance(c, (ast.For, ast.If, ast.Return, ast.UnaryOp)) and not hasattr(c, '_parent'):
+                            c._parent = n
+                top._parent = getattr(s, '_parent', None)
+                ast.fix_missing_locations(top)
+        cache[id(s)] = synth
+        return synth
+
     def x_Return(self, s, st, fr):
+        if getattr(self.an, 'desugar_all_any', False) and s.value is not None:
+            synth = self._all_any_loop(s)
+            if synth is not None:
+                return self.exec_block(synth, [st], fr)
         o = Out()
         if s.value is None:
             res = [(st, T.NONE)]
@@ -1075,7 +1121,9 @@ class Interp:
                             for t in ast.walk(t))]
             if len(defs) == 1 and isinstance(defs[0], ast.Assign) and len(defs[0].targets) == 1 \
                     and isinstance(defs[0].value, (ast.GeneratorExp, ast.ListComp)) \
-                    and len(defs[0].value.generators) >= 2 and defs[0].lineno < s.lineno \
+                    and len(defs[0].value.generators) >= (1 if getattr(self.an, 'desugar_all_any', False)
+                                                          and isinstance(defs[0].value, ast.GeneratorExp) else 2) \
+                    and defs[0].lineno < s.lineno \
                     and s.iter.id not in fr.func.params:
                 v = defs[0].value
                 body = [ast.Assign(targets=[s.target], value=v.elt)] + list(s.body)
@@ -1654,21 +1702,78 @@ class Interp:
             return 'yes' if short == 'Exception' else 'maybe'
         return 'maybe'
 
-    def x_With(self, s, st, fr):
+    def _cm_function(self, t, fr):
+        """the package generator function behind a `with f(...)`, when f is a @contextmanager / @asynccontextmanager"""
+        if t[0] in ('coro', 'gen'):
+            f = self.prog.funcs.get(t[1])
+            if f is not None and f.is_generator and fr.depth < self.an.max_inline and f.qualname not in fr.stack \
+                    and any((dotted(d) or '').split('.')[-1] in ('contextmanager', 'asynccontextmanager')
+                            for d in f.node.decorator_list):
+                return f
+        return None
+
+    def _with_items(self, s, items, st, fr):
+        """`with a, b: body` is `with a: with b: body`; a context manager written as a decorated generator of the
+        package is walked in a callee frame: the rest of the statement runs (in this frame) at its `yield`, what the
+        rest raises is raised at that yield - inside the generator's own try blocks - and a return / break /
+        continue of the rest takes effect once the generator has run to its end"""
+        if not items:
+            return self.exec_block(s.body, [st], fr)
         o = Out()
-        sts = [st]
-        for item in s.items:
-            nxt = []
-            for x in sts:
-                for y, t in self.eval(item.context_expr, x, fr, o):
-                    if item.optional_vars is not None:
-                        nxt += self.assign(item.optional_vars, ('ctx', t), y, fr, o, s)
-                    else:
-                        nxt.append(y)
-            sts = nxt
-        r = self.exec_block(s.body, sts, fr)
-        o.absorb(r, nxt=True)
+        item = items[0]
+        for y, t in self.eval(item.context_expr, st, fr, o):
+            f = self._cm_function(t, fr)
+            if f is None:
+                if item.optional_vars is not None:
+                    sts = self.assign(item.optional_vars, ('ctx', t), y, fr, o, s)
+                else:
+                    sts = [y]
+                for z in sts:
+                    o.absorb(self._with_items(s, items[1:], z, fr), nxt=True)
+                continue
+            pend = self.__dict__.setdefault('_cmpend', [])
+            caller = fr
+
+            def sink(z, val, oc, item=item):
+                sts = self.assign(item.optional_vars, val, z, caller, oc, s) if item.optional_vars is not None else [z]
+                out = []
+                for b in sts:
+                    r = self._with_items(s, items[1:], b, caller)
+                    out += r.nxt
+                    for (w, v, n) in r.ret:
+                        pend.append(('ret', v, n))
+                        out.append(w.set(cmpend=len(pend) - 1))
+                    for w in r.brk:
+                        pend.append(('brk',))
+                        out.append(w.set(cmpend=len(pend) - 1))
+                    for w in r.cont:
+                        pend.append(('cont',))
+                        out.append(w.set(cmpend=len(pend) - 1))
+                    oc.exc += r.exc
+                return out
+            sinks = self.__dict__.setdefault('_ysinks', [])
+            sinks.append((f, fr.depth + 1, sink, 'cm'))
+            try:
+                res = self.inline(f, None, (), (), None, y, fr, o, s, bindings=t[2])
+            finally:
+                sinks.pop()
+            for z, _v in res:
+                tok = z.a('cmpend')
+                if tok is None:
+                    o.nxt.append(z)
+                    continue
+                z = z.set(cmpend=None)
+                what = pend[tok]
+                if what[0] == 'ret':
+                    o.ret.append((z, what[1], what[2]))
+                elif what[0] == 'brk':
+                    o.brk.append(z)
+                else:
+                    o.cont.append(z)
         return o
+
+    def x_With(self, s, st, fr):
+        return self._with_items(s, list(s.items), st, fr)
 
     x_AsyncWith = x_With
 
@@ -2009,8 +2114,8 @@ class Interp:
         for x, t in vals:
             sink = next((sk for sk in reversed(sinks) if sk[0] is fr.func and sk[1] == fr.depth), None)
             if sink is not None:
-                # the generator is being run by a `for` loop of its caller: the loop body is executed here
-                for y in sink[2](x, t):
+                # the generator is being run by a `for` loop (or a `with`) of its caller: the body is executed here
+                for y in (sink[2](x, t, o) if len(sink) > 3 else sink[2](x, t)):
                     res.append((y, T.NONE))
                 continue
             y = self.an.on_yield(self, e, t, x, fr)
@@ -2379,6 +2484,10 @@ class Interp:
                     return f, base, 'func'
                 return None, None, 'sym'
             if fr.self_term is not None and base == fr.self_term and fr.func.cls is not None:
+                if getattr(self, 'root_cls', None) is not None and self.self_class(fr) is self.root_cls:
+                    f1 = self.prog.supplier(self.root_cls, m)       # an instance of exactly that class
+                    if f1 is not None:
+                        return f1, base, 'func'
                 cands = self.prog.dispatch_set(self.self_class(fr), m)
                 if len(cands) == 1:
                     return cands[0], base, 'func'
@@ -2395,6 +2504,11 @@ class Interp:
         return None, None, 'sym'
 
     def self_class(self, fr):
+        # the exploration may have been asked for instances of one given class (template methods whose hooks a
+        # subclass overrides): `self` of the root activation, and of what is inlined on it, is of that class
+        rc = getattr(self, 'root_cls', None)
+        if rc is not None and fr.self_term == getattr(self.root, 'self_term', None) and fr.func.cls in rc.mro:
+            return rc
         return fr.func.cls
 
     def bind(self, f, recv, args, kws, fterm=None):
